@@ -1087,9 +1087,105 @@ static long n_p3(int tier)
     return 3L * 3 * NPREC * NPREC;
 }
 
+
+/*
+ * P4: the object changes its type between two saves.  "If
+ * vnadata_set_format() isn't called, vnadata_save() and vnadata_fsave() take
+ * the parameter type from the vnadata_t structure": the second file denotes
+ * the object as it is then, or the save is refused where the file kind cannot
+ * hold the new type.
+ */
+static long n_p4(void) { return 9L * 9 * 3; }
+static void run_p4(long idx, vf_result *r)
+{
+    static const int sels[3] = { SEL_NPD, SEL_TS, SEL_SNP };
+    static const char *const ext[3] = { "c06r1.npd", "c06r1.ts", "c06r1.s2p" };
+    static const char *const ext2[3] = { "c06r2.npd", "c06r2.ts",
+	"c06r2.s2p" };
+    cfg_t c;
+    vf_errlog logA, logC;
+    vnadata_t *A = NULL, *C = NULL;
+    char f1[800], f2[800];
+    int from, to, si, sv1, sv2, cv, e2, want2;
+
+    memset(&c, 0, sizeof(c));
+    c.mag = 1.0;
+    from = vf_digit(&idx, 9) + 1;
+    to = vf_digit(&idx, 9) + 1;
+    si = vf_digit(&idx, 3);
+    c.type = from;
+    c.sel = sels[si];
+    c.ports = 2;
+    c.nfreq = 1;
+    fill_cfg(&c);
+    vf_desc(r, "P4 retyped: %s 2x2 saved to %s without a format, converted "
+	    "in place to %s, saved again", type_name[from], ext[si] + 6,
+	    type_name[to]);
+    vf_errlog_reset(&logA);
+    vf_errlog_reset(&logC);
+    snprintf(f1, sizeof(f1), "%s", vf_tmp(ext[si]));
+    snprintf(f2, sizeof(f2), "%s", vf_tmp(ext2[si]));
+    A = make_obj(&c, &logA);
+    C = vnadata_alloc((vnaerr_error_fn_t *)vf_errfn, &logC);
+    if (A == NULL || C == NULL)
+	FAIL("harness:init", "cannot build the object: %s",
+		logA.count ? logA.msg[0] : "?");
+    sv1 = vnadata_save(A, f1);
+    cv = vnadata_convert(A, A, (vnadata_parameter_type_t)to);
+    r->transitions += 2;
+    if (cv != 0)
+	FAIL("harness:convert", "in-place conversion %s to %s failed: %s",
+		type_name[from], type_name[to],
+		logA.count ? logA.msg[logA.count - 1] : "?");
+    vf_errlog_reset(&logA);
+    errno = 0;
+    sv2 = vnadata_save(A, f2);
+    e2 = errno;
+    ++r->transitions;
+    want2 = (si == 0 || to == VPT_S || to == VPT_Z || to == VPT_Y ||
+	    to == VPT_H || to == VPT_G) ? 0 : -1;
+    if (sv2 != want2 || (sv2 == -1 && e2 != EINVAL))
+	FAIL("retyped:save", "second vnadata_save (object now %s, first save "
+		"as %s returned %d, no format ever set) returned %d errno %d "
+		"(%s); %s", type_name[to], type_name[from], sv1, sv2, e2,
+		logA.count ? logA.msg[0] : "no message", want2 == 0 ?
+		"the file kind holds this type" :
+		"Touchstone cannot hold this type");
+    if (sv2 == 0) {
+	if (vnadata_load(C, f2) != 0)
+	    FAIL("retyped:load", "the second file does not load: %s",
+		    logC.count ? logC.msg[0] : "?");
+	++r->transitions;
+	if ((int)vnadata_get_type(C) != to) {
+	    dump_file(f2);
+	    FAIL("retyped:type", "the object was %s when it was saved the "
+		    "second time (no format ever set; the first save, as %s, "
+		    "returned %d); the file loads as %s", type_name[to],
+		    type_name[from], sv1, type_name[vnadata_get_type(C)]);
+	}
+	for (int i = 0; i < 2; ++i)
+	    for (int j = 0; j < 2; ++j) {
+		double complex a = vnadata_get_cell(A, 0, i, j);
+		double complex b = vnadata_get_cell(C, 0, i, j);
+		if (!(cabs(a - b) <= 1e-4 * (cabs(a) + 1e-3)))
+		    FAIL("retyped:value", "cell %d,%d of the second file "
+			    "loads as %g%+gj, the object has %g%+gj", i, j,
+			    creal(b), cimag(b), creal(a), cimag(a));
+	    }
+    }
+    r->nontrivial = 1;
+    r->states = 1;
+    vf_outcome(r, "P4 retyped %s", sv2 == 0 ? "saved" : "refused");
+done:
+    vnadata_free(A);
+    vnadata_free(C);
+    unlink(f1);
+    unlink(f2);
+}
+
 static long count(int tier)
 {
-    return n_p1(tier) + n_p2(tier) + n_p3(tier);
+    return n_p1(tier) + n_p2(tier) + n_p3(tier) + n_p4();
 }
 
 static void run(int tier, long idx, vf_result *r)
@@ -1100,6 +1196,11 @@ static void run(int tier, long idx, vf_result *r)
     const char *space;
     char lastdesc[sizeof(r->desc)];
 
+    if (idx >= n_p1(tier) + n_p2(tier) + n_p3(tier)) {
+	run_p4(idx - n_p1(tier) - n_p2(tier) - n_p3(tier), r);
+	vf_exec_end(r, mark);
+	return;
+    }
     memset(&c, 0, sizeof(c));
     c.mag = 1.0;
     if (idx < n_p1(tier)) {
